@@ -14,6 +14,7 @@ ring handed to `ReplicaLocator::new` when a `ClusterState` is rebuilt from new m
 * `CState.fresh`, `CState.refresh`, `CState.refreshTopology` ← `ClusterState::{new, new_updated,
                        new_with_updated_topology}` (`state.rs:172-269`) → `calculate_new_locator` (every keyspace
                        strategy is precomputed; the topology-only refresh keeps the previous keyspaces).
+* `resolveKeyspaces` ← `resolve_metadata_keyspaces` (`state.rs:345-373`): per-keyspace fetch errors reuse the OLD keyspace.
 -/
 namespace ScyllaVerif.Refresh
 open ScyllaVerif.Ring ScyllaVerif.Replicas
@@ -79,27 +80,47 @@ def newTopology (known : List KNode) (peers : List MPeer) : List KNode × List (
   (peers.map (pickNode known),
    peers.flatMap (fun p => p.tokens.map (fun tk => (tokenNew tk, (pickNode known p).node))))
 
+/-- `ClusterState::keyspaces` as far as placement reads it: keyspace name (`k<n>` ↔ `n`) → replication strategy.
+A `HashMap`: an association list with distinct names. -/
+abbrev Keyspaces := List (Nat × Strategy)
+
+/-- `Metadata::keyspaces`: per keyspace name either its freshly fetched definition or a fetch error (`none`). -/
+abbrev Fetched := List (Nat × Option Strategy)
+
+/-- `resolve_metadata_keyspaces` (`state.rs:345-373`): a keyspace whose fetch failed keeps the PREVIOUS state's
+definition; if there is none it is absent until the next refresh. -/
+def resolveKeyspaces (fetched : Fetched) (old : Keyspaces) : Keyspaces :=
+  fetched.filterMap (fun e =>
+    match e.2 with
+    | some s => some (e.1, s)
+    | none => (old.lookup e.1).map (fun s => (e.1, s)))
+
+/-- The strategies handed to `ReplicaLocator::new` for precomputation (`calculate_new_locator`). -/
+def strategiesOf (ks : Keyspaces) : List Strategy := ks.map (·.2)
+
 /-- The parts of `ClusterState` that replica placement depends on. -/
 structure CState where
   known : List KNode
-  keyspaces : List Strategy
+  keyspaces : Keyspaces
   loc : Locator
   deriving Repr
 
-/-- `ClusterState::new(metadata, ..)`. -/
-def CState.fresh (peers : List MPeer) (S : List Strategy) : CState :=
+/-- `ClusterState::new(metadata, ..)`: keyspaces resolved against an empty previous map. -/
+def CState.fresh (peers : List MPeer) (fetched : Fetched) : CState :=
   let t := newTopology [] peers
-  ⟨t.1, S, mkLocator t.2 S⟩
+  let ks := resolveKeyspaces fetched []
+  ⟨t.1, ks, mkLocator t.2 (strategiesOf ks)⟩
 
-/-- `previous.new_updated(metadata, ..)`: new topology and new keyspaces. -/
-def CState.refresh (st : CState) (peers : List MPeer) (S : List Strategy) : CState :=
+/-- `previous.new_updated(metadata, ..)`: new topology; keyspaces resolved against the previous state's. -/
+def CState.refresh (st : CState) (peers : List MPeer) (fetched : Fetched) : CState :=
   let t := newTopology st.known peers
-  ⟨t.1, S, mkLocator t.2 S⟩
+  let ks := resolveKeyspaces fetched st.keyspaces
+  ⟨t.1, ks, mkLocator t.2 (strategiesOf ks)⟩
 
 /-- `previous.new_with_updated_topology(peers, ..)`: new topology, keyspaces of the previous state. -/
 def CState.refreshTopology (st : CState) (peers : List MPeer) : CState :=
   let t := newTopology st.known peers
-  ⟨t.1, st.keyspaces, mkLocator t.2 st.keyspaces⟩
+  ⟨t.1, st.keyspaces, mkLocator t.2 (strategiesOf st.keyspaces)⟩
 
 /-- What happens to the known nodes between refreshes as far as `calculate_new_topology` can see: only
 `is_enabled()` changes (pools open and close; the verification hook overrides it). -/
@@ -108,13 +129,13 @@ def CState.setEnabled (st : CState) (ids : List Nat) : CState :=
 
 /-- One event of a history: a full metadata refresh, a topology-only refresh, a change of enabled-ness. -/
 inductive Step where
-  | full (peers : List MPeer) (S : List Strategy)
+  | full (peers : List MPeer) (fetched : Fetched)
   | topo (peers : List MPeer)
   | enable (ids : List Nat)
   deriving Repr
 
 def CState.step (st : CState) : Step → CState
-  | .full peers S => st.refresh peers S
+  | .full peers fetched => st.refresh peers fetched
   | .topo peers => st.refreshTopology peers
   | .enable ids => st.setEnabled ids
 
